@@ -331,13 +331,32 @@ impl Property for C10 {
         }
     }
     fn fixed_count(&mut self, _tier: Tier) -> u64 {
-        // reserved words as let names + as constraint names + rebinding forms
-        RESERVED.len() as u64 + 8
+        // reserved words as let names + rebinding forms + reserved words as parameters of a
+        // called function and of a map callback
+        RESERVED.len() as u64 + 8 + 2 * RESERVED.len() as u64
     }
     fn fixed_exhaustive(&self) -> bool {
         true
     }
     fn run_fixed(&mut self, index: u64) -> Outcome {
+        if index as usize >= RESERVED.len() + 8 {
+            let k = index as usize - RESERVED.len() - 8;
+            let w = RESERVED[k % RESERVED.len()];
+            let src = if k < RESERVED.len() {
+                format!("let f = func ({}) => 1;\nlet r = f(41);\n", w)
+            } else {
+                format!("let r = map(func ({}) => 1, [1, 2]);\n", w)
+            };
+            let mut o = Outcome::pass(src.clone());
+            o.key = fnv(src.as_bytes());
+            o.portable = Some(serde_json::json!({"kind": "must-fail", "source": src}).to_string());
+            o.class("reserved-word-parameter");
+            o.nontrivial = true;
+            if let Ok(v) = self.eval(&src) {
+                o.fail("C10/reserved-word-bound", format!("a reserved word is bound as a function parameter and the program builds: {}\n{}", show_val(&v), src));
+            }
+            return o;
+        }
         let src = if (index as usize) < RESERVED.len() {
             format!("let {} = 1;\n", RESERVED[index as usize])
         } else {
